@@ -61,6 +61,10 @@ func init() {
 	registerDomain("dsum", []string{"T", "T", idxSort}, "Real", "")
 	registerDomain("msum", []string{"T", "T", idxSort}, "Real", "")
 
+	// dsumT(A, d, n): sum of dim(A[k], d) over k < n (Concat offsets)
+	registerDomain("dsumT", []string{"(Array Int T)", "Int", "Int"}, "Int", `(assert (forall ((A (Array Int T)) (d Int) (n Int)) (! (=> (<= n 0) (= (dsumT A d n) 0)) :pattern ((dsumT A d n)))))
+(assert (forall ((A (Array Int T)) (d Int) (n Int)) (! (=> (> n 0) (= (dsumT A d n) (+ (dsumT A d (- n 1)) (dim (select A (- n 1)) d)))) :pattern ((dsumT A d n)))))
+(assert (forall ((A (Array Int T)) (d Int) (i Int) (n Int)) (! (=> (and (<= 0 i) (<= i n) (forall ((k Int)) (=> (and (<= i k) (< k n)) (>= (dim (select A k) d) 0)))) (<= (dsumT A d i) (dsumT A d n))) :pattern ((dsumT A d i) (dsumT A d n)))))`, "dim")
 	// ghost: source / target tensor of a back-edge closure
 	registerDomain("srcOf", []string{"Fn"}, "T", "")
 	registerDomain("tgtOf", []string{"Fn"}, "T", "")
